@@ -13,5 +13,8 @@ trap 'rm -rf "$S"' EXIT
 git -C /repo archive "$REF" src | tar -x -C "$S"
 mkdir -p "$S/_build"
 cp /repo/_build/config.h "$S/_build/config.h" 2>/dev/null || cp "$HERE/../.build/cfg/config.h" "$S/_build/config.h"
-for p in $PATCHES; do (cd "$S" && patch -p1 -s < "$p"); done
+for p in $PATCHES; do
+  if ! (cd "$S" && patch -p1 -s -f --dry-run < "$p" > /dev/null 2>&1); then echo "PATCH-DOES-NOT-APPLY $p"; rm -rf "$S"; exit 3; fi
+  (cd "$S" && patch -p1 -s -f < "$p")
+done
 EBUSD_REPO="$S" VERIF_EVIDENCE_DIR="$S/evidence" python3 "$HERE/py/check.py" "$@"
